@@ -254,8 +254,9 @@ class Gen:
         return assemble(plan, mode, cuts)
 
 
-def assemble(plan, mode, cuts=(), items=None, extra_feats=()):
-    """build the request for a plan: entry point `mode`, trait list split at `cuts`"""
+def assemble(plan, mode, cuts=(), items=None, extra_feats=(), list_flags=None):
+    """build the request for a plan: entry point `mode`, trait list split at `cuts`;
+    `list_flags[k] = (shared bound, shared dump)` overrides the plan's shared arguments for list k"""
     items = plan['items'] if items is None else items
     sb, sdump = plan['shared_bound'], plan['shared_dump']
     feats = set(plan['feats']) | set(extra_feats) | {mode}
@@ -268,12 +269,15 @@ def assemble(plan, mode, cuts=(), items=None, extra_feats=()):
     if len(lists) > 1:
         feats.add('split-list')
     it = plan['item']
-    extra = [sx.a_derive_ex(sx.dx(l, bnd=sb, dump=sdump)) for l in lists[1:]]
+    lf = list_flags if list_flags is not None else [(sb, sdump)] * len(lists)
+    if list_flags is not None:
+        feats.add('per-list-flags')
+    extra = [sx.a_derive_ex(sx.dx(l, bnd=lf[k + 1][0], dump=lf[k + 1][1])) for k, l in enumerate(lists[1:])]
     if mode == 'attr':
         it = _prepend_attrs(it, extra)
-        req = sx.inv_attr(sx.dx(lists[0], bnd=sb, dump=sdump), it)
+        req = sx.inv_attr(sx.dx(lists[0], bnd=lf[0][0], dump=lf[0][1]), it)
     else:
-        it = _prepend_attrs(it, [sx.a_derive_ex(sx.dx(lists[0], bnd=sb, dump=sdump))] + extra)
+        it = _prepend_attrs(it, [sx.a_derive_ex(sx.dx(lists[0], bnd=lf[0][0], dump=lf[0][1]))] + extra)
         req = sx.inv_derive(it)
     return req, dict(features=tuple(sorted(feats)), traits=[t for t, _ in items], enum=plan['enum'])
 
